@@ -353,7 +353,7 @@ class GenericSpatialTransform(SequentialTransform):
             if flip_grid_coords:
                 rotmodel = self.config.rotation_model
                 rotation = euler_rotation_matrix(angles, order=rotmodel).flip((1, 2))
-                angles = euler_rotation_angles(rotation, order=rotmodel)
+                angles = euler_rotation_angles(rotation, order=rotmodel).reshape(angles.shape)
             data["rotation"] = angles
         if "shearing" in self._transforms:
             angles = pred["shearing"]
